@@ -1,0 +1,46 @@
+//go:build verif
+
+// Read-only accessors for the verification harness (/verif, properties C03 C04 C13). No logic: every function
+// only calls or reads an existing unexported identifier. Not compiled without the build tag `verif`.
+package bft
+
+import (
+	"maps"
+
+	"github.com/vechain/thor/v2/chain"
+	"github.com/vechain/thor/v2/thor"
+)
+
+// VerifState returns the engine's computed bft state of a block (computeState, caches included).
+func (engine *Engine) VerifState(sum *chain.BlockSummary) (quality uint32, justified, committed bool, err error) {
+	st, err := engine.computeState(sum)
+	if err != nil {
+		return 0, false, false, err
+	}
+	return st.Quality, st.Justified, st.Committed, nil
+}
+
+// VerifCasts returns a copy of the master's recorded votes (nil before the first ShouldVote).
+func (engine *Engine) VerifCasts() map[thor.Bytes32]uint32 {
+	return maps.Clone(map[thor.Bytes32]uint32(engine.casts))
+}
+
+// VerifJustifier exposes the unexported vote set.
+type VerifJustifier struct{ js *justifier }
+
+func VerifNewJustifier(parentQuality, checkpoint uint32, thresholdVotes, thresholdWeight uint64) *VerifJustifier {
+	return &VerifJustifier{newJustifier(parentQuality, checkpoint, thresholdVotes, thresholdWeight)}
+}
+
+func (v *VerifJustifier) AddBlock(signer thor.Address, isCOM bool, weight uint64) {
+	v.js.AddBlock(signer, isCOM, weight)
+}
+
+func (v *VerifJustifier) Summarize() (quality uint32, justified, committed bool) {
+	st := v.js.Summarize()
+	return st.Quality, st.Justified, st.Committed
+}
+
+func (v *VerifJustifier) Counters() (votes int, comVotes, comWeight, justifiedWeight uint64) {
+	return len(v.js.votes), v.js.comVotes, v.js.comWeight, v.js.justifiedWeight
+}
